@@ -7,6 +7,7 @@ props = [json.loads(l) for l in open(os.path.join(HERE, "properties.jsonl"))]
 # id -> (claim text, level_note, design_ref)   ; ids absent here are listed under not_applicable with NA[id]
 CLAIMS = {}
 NA = {}
+TECH_EXTRA = {}
 exec(open(os.path.join(HERE, "tools", "claims.py")).read())
 
 TECH = "contract-based deductive verification: VCs generated from /repo's Python AST by /verif/pyvc, discharged by z3 (cvc5 for z3's unknowns)"
@@ -25,7 +26,7 @@ for p in props:
         "engine": "pyvc",
         "level_claimed": {"category": "proof", "text": text, "design_ref": ref},
         "level_note": note,
-        "technique": TECH,
+        "technique": TECH + TECH_EXTRA.get(pid, ""),
     })
 m = {
     "version": 1,
